@@ -1,5 +1,6 @@
 import Driver.Proto
 import Gotree.Spec.C04
+import Gotree.Model.C04Dump
 import Gotree.Spec.Splits
 
 namespace Gotree.Driver.C04
@@ -581,6 +582,49 @@ def handleQuartets (dump sp wi outcome ql ix : String) : Verdict :=
         if sortQsU model != sortQsU qs then ⟨.tie, tags, "model quartets differ (" ++ toString model.length ++ ")"⟩
         else ⟨.pass, tags, ""⟩
 
+/- ## C04.splits : `Edge.DumpBitSet` on every branch and the command `gotree stats splits` -/
+
+def handleSplits (dump copies outcome libdumps exit stdout : String) : Verdict :=
+  match T.undump dump, parseStrList libdumps, unescape stdout, copies.toNat? with
+  | some t, some lib, some out, some nc =>
+    let tips := t.tipNames
+    let uniq : Bool := decide tips.Nodup
+    let inner := t.splits.any fun s => 2 ≤ specTopoDepth tips s.below
+    let tags := treeTags t ++ tagIf uniq "uniq" ++ tagIf (uniq && inner) "nontrivial" ++ tagIf (tips.length > 128) "over128tips" ++
+      tagIf (tips.length == 64) "exactly64tips" ++ tagIf (nc > 1) "several-trees-in-input"
+    -- the command on an input holding the tree `nc` times: the bodies for the tree numbers 0 .. nc-1, one after the other
+    let model : Res String := (List.range nc).foldl (fun acc id =>
+      match acc, statsSplits id t with
+      | .ok a, .ok b => .ok (a ++ b)
+      | .err m, _ => .err m
+      | _, .err m => .err m) (.ok "")
+    if !uniq || tips.length == 0 then
+      match model with
+      | .err _ => if outcome == "err" && exit != "0" then ⟨.pass, "refused" :: tags, ""⟩
+                  else ⟨.tie, tags, "model refuses the tree, the code does not: " ++ outcome ++ " exit " ++ exit⟩
+      | .ok _ => ⟨.tie, tags, "model accepts a tree outside the property"⟩
+    else if outcome != "ok" then ⟨.oracle, tags, "ReinitIndexes / DumpBitSet failed on a tree with unique tip names: " ++ outcome⟩
+    else
+    let want := t.splits.map fun s => specDumpLine tips s.below
+    let wantOut := String.join ((List.range nc).map fun id =>
+      specSplitsHeader tips ++ "\n" ++ String.join (want.map fun l => toString id ++ "\t" ++ l ++ "\n"))
+    -- the model on the correct bitsets
+    let mLines := t.splits.map fun s => dumpBitSet (some (specIdx fnv1a tips s.below).bits)
+    if lib != want then
+      let i := (findIdx? (fun (p : String × String) => p.1 != p.2) (lib.zip want)).getD 0
+      ⟨.oracle, tags, "DumpBitSet of branch " ++ toString i ++ " is " ++ lib.getD i "?" ++ " (" ++ toString (lib.getD i "").length ++
+        " characters), one digit per tip would be " ++ want.getD i "?"⟩
+    else if exit != "0" then ⟨.oracle, tags, "gotree stats splits fails on a tree with unique tip names: exit " ++ exit⟩
+    else if out != wantOut then
+      ⟨.oracle, tags, "gotree stats splits does not print the header and one aligned digit per tip and branch: " ++
+        escape (String.ofList (out.toList.take 200))⟩
+    else
+    match model with
+    | .ok mo => if mo != out then ⟨.tie, tags, "model of gotree stats splits prints something else"⟩
+                else if mLines != lib then ⟨.tie, tags, "model DumpBitSet differs"⟩ else ⟨.pass, tags, ""⟩
+    | .err m => ⟨.tie, tags, "model refuses: " ++ m⟩
+  | _, _, _, _ => bad "C04.splits fields"
+
 def handle (op : String) (f : List String) : Verdict :=
   match op, f with
   | "index", [_, script, outcome, dump, ranks, obs, enum, after2, rk0, obs0] => handleIndex script outcome dump ranks obs enum after2 rk0 obs0
@@ -589,6 +633,7 @@ def handle (op : String) (f : List String) : Verdict :=
   | "ei", [dumps, cap, lf, ops, outcome, replies] => handleEI dumps cap lf ops outcome replies
   | "quartets", [dump, sp, wi, outcome, ql, ix] => handleQuartets dump sp wi outcome ql ix
   | "quartet", [q, q2, cap, lf, h1, h2, c11, c12, e11, e12, replies] => handleQuartet q q2 cap lf h1 h2 c11 c12 e11 e12 replies
+  | "splits", [dump, copies, outcome, libdumps, exit, stdout] => handleSplits dump copies outcome libdumps exit stdout
   | _, _ => bad ("C04: unknown op or field count: " ++ op)
 
 end Gotree.Driver.C04
